@@ -134,6 +134,12 @@ pub fn gen_plan(prop: &str, base_seed: u64, index: u64) -> Plan {
         "C01" | "C02" | "C03" | "C04" => crate::fam_comm::generate(prop, &mut rng, &mut plan, index),
         "C09" | "C10" | "C11" => crate::fam_status::generate(prop, &mut rng, &mut plan, index),
         "C08" if index % 2 == 1 => crate::fam_pipe::generate(prop, &mut rng, &mut plan, index),
+        // C17 and C18 quantify over every child, also the stages of pipelines
+        "C17" if index % 4 == 3 => crate::fam_pipe::generate(prop, &mut rng, &mut plan, index),
+        "C18" if index % 3 == 2 => {
+            crate::fam_spawn::gen_signal_state(&mut rng, &mut plan);
+            crate::fam_pipe::generate(prop, &mut rng, &mut plan, index)
+        }
         "C05" | "C06" | "C07" | "C08" | "C15" | "C17" | "C18" => crate::fam_spawn::generate(prop, &mut rng, &mut plan, index),
         "C12" => crate::fam_drop::generate(&mut rng, &mut plan, index),
         "C16" => crate::fam_builder::generate(&mut rng, &mut plan, index),
